@@ -185,13 +185,44 @@ theorem c14_noalloc_line (stack : Bytes) (level : Nat) (subject msg ts tid : Byt
     simp only [he, bind, Except.bind, pure, Except.pure, hline, hcut]
     rfl
 
+/-- **A registered subject whose name is NULL**: the default formatter sizes the line without a subject length (its
+`strlen` is guarded) and the line is complete and simply has no `[subject]` field — prefix `[LEVEL] [time] [tid] ` then
+` - ` and the message. -/
+theorem c14_default_line_null_subject (level : Nat) (msg ts tid : Bytes) (hl : level < AWS_LL_COUNT)
+    (hts0 : ts ≠ []) (hts : ts.length ≤ AWS_DATE_TIME_STR_MAX_LEN) (htid : tid.length < AWS_THREAD_ID_T_REPR_BUFSZ)
+    (hsz : msg.length < 2147483000) :
+    defaultFormatNull level msg ts tid =
+      .ok (fullLine { total := defaultTotal msg [], level := level, subject := none, msg := msg, ts := ts, tid := tid }) := by
+  let d : FmtData := { total := defaultTotal msg [], level := level, subject := none, msg := msg, ts := ts, tid := tid }
+  obtain ⟨lvl, hlk, hmem⟩ := level_lookup hl
+  obtain ⟨_, _, hlen⟩ := levels_clean lvl hmem
+  have hb := body_length d lvl hlk
+  have hfit : (fullLine d).length + 1 ≤ d.total := by
+    simp only [fullLine, List.length_append, newline_eq, List.length_singleton]
+    rw [hb]
+    simp only [d, defaultTotal, AWS_DATE_TIME_STR_MAX_LEN, AWS_THREAD_ID_T_REPR_BUFSZ, LOG_LEVEL_PREFIX_PADDING,
+      MAX_LOG_LINE_PREFIX_SIZE, List.length_nil] at *
+    omega
+  have hr : InRange d := by
+    refine ⟨hl, ?_, ?_⟩
+    · show defaultTotal msg [] < _
+      simp only [defaultTotal, MAX_LOG_LINE_PREFIX_SIZE, List.length_nil]; omega
+    · rw [hb]
+      simp only [d, AWS_DATE_TIME_STR_MAX_LEN, AWS_THREAD_ID_T_REPR_BUFSZ, LOG_LEVEL_PREFIX_PADDING] at *
+      omega
+  obtain ⟨buf', he, hline, _⟩ := c14_line_shape (List.replicate (defaultTotal msg []) 0) d (by simp [d]) hr hts0 hfit
+  unfold defaultFormatNull
+  simp only [d] at he hline
+  simp only [he, bind, Except.bind, pure, Except.pure, hline]
+  simp [fullLine, body, linePrefix, newline_eq]
+
 /-! ## Level gate -/
 
 /-- **Gate.**  A call produces a line iff its level is ≤ the logger's current level (given a valid level
 and a channel that accepts). -/
 theorem c14_gate (p : Pipe) (c : Call) (hch : p.chan = .foreground) (hl : c.level < AWS_LL_COUNT) (hts0 : c.ts ≠ [])
     (hts : c.ts.length ≤ AWS_DATE_TIME_STR_MAX_LEN) (htid : c.tid.length < AWS_THREAD_ID_T_REPR_BUFSZ)
-    (hsz : c.msg.length + c.subject.length < 2147483000) :
+    (hsz : c.msg.length + c.subject.length < 2147483000) (hnn : c.subjectNull = false) :
     (c.level ≤ p.level →
         (logf p c).written = p.written ++
           [fullLine { total := defaultTotal c.msg c.subject, level := c.level, subject := some c.subject, msg := c.msg, ts := c.ts, tid := c.tid }]) ∧
@@ -199,7 +230,7 @@ theorem c14_gate (p : Pipe) (c : Call) (hch : p.chan = .foreground) (hl : c.leve
   have hfmt := c14_default_line c.level c.subject c.msg c.ts c.tid hl hts0 hts htid hsz
   constructor
   · intro h
-    simp [logf, gate, h, pipelineLog, hfmt, hch]
+    simp [logf, gate, h, pipelineLog, callFormat, hnn, hfmt, hch]
   · intro h
     simp [logf, gate, h]
 
@@ -211,7 +242,7 @@ theorem c14_pipeline_ownership (p : Pipe) (c : Call) :
          (pipelineLog p c).1.written = p.written ∧ p.chan = .failing ∧ (pipelineLog p c).2 = false)) ∨
     ((pipelineLog p c).1 = p ∧ (pipelineLog p c).2 = false) := by
   unfold pipelineLog
-  cases hf : defaultFormat c.level c.subject c.msg c.ts c.tid with
+  cases hf : callFormat c with
   | error e => right; simp
   | ok line =>
     left
@@ -243,8 +274,8 @@ theorem c14_gate_after_store (p : Pipe) (l : Nat) (h : List Op) (hch : p.chan = 
     | set _ => exact absurd hns (by simp [noStores])
     | log c =>
       obtain ⟨hw, hr⟩ := hwf
-      obtain ⟨h1, h2, h3, h4, h5⟩ := hw
-      have g := c14_gate q c hqc h1 h2 h3 h4 h5
+      obtain ⟨h1, h2, h3, h4, h5, h6⟩ := hw
+      have g := c14_gate q c hqc h1 h2 h3 h4 h5 h6
       have hrun : run q (.log c :: r) = run (logf q c) r := by simp [run, apply]
       rw [hrun]
       by_cases hle : c.level ≤ l
@@ -266,7 +297,7 @@ theorem c14_gate_after_store (p : Pipe) (l : Nat) (h : List Op) (hch : p.chan = 
 `write` succeeds or fails for this line, the call reports success, the line counts as handed to the writer, and it
 is destroyed exactly once (by the channel — the pipeline must not, and does not, destroy it again). -/
 theorem c14_writer_failure (p : Pipe) (c : Call) (line : Bytes) (hch : p.chan = .foreground)
-    (hf : defaultFormat c.level c.subject c.msg c.ts c.tid = .ok line) :
+    (hf : callFormat c = .ok line) :
     (pipelineLog p c).2 = true ∧
     (pipelineLog p c).1.written = p.written ++ [line] ∧
     (pipelineLog p c).1.destroyed = p.destroyed ++ [line] ∧
